@@ -71,6 +71,8 @@ pub fn exec_c03(plan: &C03Plan, st: &mut Stats) -> Option<Violation> {
     // disposable pictures; which picture is the reference is C04's business).
     let mut reference: Option<Snap> = None;
     let mut probes = Probes::default();
+    // standard mode: see the same flag in c04.rs
+    let mut tainted = false;
     for (si, step) in plan.steps.iter().enumerate() {
         st.add("steps", 1);
         match step {
@@ -97,14 +99,19 @@ pub fn exec_c03(plan: &C03Plan, st: &mut Stats) -> Option<Violation> {
                     Outcome::Ok => {
                         // accepted after all: re-synchronise the model from the real decoder
                         st.inc("corrupted_picture_accepted");
-                        reference = snap_last(&slot.state);
+                        // corruption can turn the type field into "disposable": such a
+                        // picture never becomes the reference (C04's rule)
+                        let disposable = hdr_last(&slot.state).map(|h| h.ptype == "DisposablePFrame").unwrap_or(false);
+                        if !disposable {
+                            reference = snap_last(&slot.state);
+                        }
+                        if plan.opts & 1 == 0 {
+                            tainted = true;
+                        }
                     }
                     Outcome::Err(_) => {
                         st.inc("corrupted_picture_rejected");
-                        if state_digest(&slot.state) != before {
-                            // not C03's verdict (C05), but the model must follow the real decoder
-                            reference = snap_last(&slot.state);
-                        }
+                        let _ = before; // a state change by a failed call is C05's verdict, not C03's
                     }
                 }
             }
@@ -175,6 +182,10 @@ pub fn exec_c03(plan: &C03Plan, st: &mut Stats) -> Option<Violation> {
                 }
                 match &o {
                     Outcome::Err(e) => {
+                        if cut.is_none() && tainted {
+                            st.inc("not_valid_in_this_state");
+                            continue;
+                        }
                         if cut.is_none() {
                             return viol(
                                 &format!("valid {} picture rejected", if needs_ref { "predicted" } else { "intra" }),
